@@ -22,6 +22,8 @@ WEAK_SC = {  # switch -> (base cfg, invariant(s) of which at least one must be r
     "Weak_RecvNonceNotIncremented": ("C16_weak_RecvNonceNotIncremented.cfg", ["PrefixExact", "DeliveredExact"]),
     "Weak_ReadIgnoresAuthError": ("C16_weak_ReadIgnoresAuthError.cfg", ["TamperFails"]),
     "Weak_SameKeyBothDirections": ("C16_weak_SameKeyBothDirections.cfg", ["NonceFresh", "PrefixExact"]),
+    # the pre-transcript attack: same zero secret forced on both sides, signatures relayed
+    "Weak_ChallengeDHOnly+Weak_AcceptLowOrder": ("C16_weak_LowOrderRelay.cfg", ["AuthenticatedExceptSelf"]),
 }
 WEAK_UP = {
     "Weak_NoDialedIDCheck": ("C16_weak_NoDialedIDCheck.cfg", ["IdentityBound"]),
@@ -175,10 +177,11 @@ def _bounds(ctx):
         "stream_all": dict(MaxFrames=3, MaxReads=3, MaxEdits=1, W="WOneWay", R="ROneWay"),
         "duplex": dict(MaxFrames=3, MaxReads=3, MaxEdits=1),                                    # 251 170
         "full": dict(MaxFrames=2, MaxReads=2, MaxEdits=1),
-        "g_hs": dict(MaxEdits=2),                                                               # 38 667 (all three ranks)
-        "g_stream": dict(MaxFrames=2, MaxReads=2, MaxEdits=1, W="WOneWayQ", R="ROneWayQ"),      #  5 190 (both orders)
-        "g_full": dict(MaxFrames=2, MaxReads=1, MaxEdits=1),                                    #  8 116
-        "sim": 1500, "random": 3000, "random_big": 200,
+        "g_hs": dict(MaxEdits=1),                                                               # all three key orders, one edit
+        "g_hs2": dict(MaxEdits=2, Ranks="RanksOne"),                                            # one key order, two edits
+        "g_stream": dict(MaxFrames=2, MaxReads=2, MaxEdits=1, W="WOneWayQ", R="ROneWayQ"),      # both key orders
+        "g_full": dict(MaxFrames=2, MaxReads=1, MaxEdits=1),
+        "sim": 1000, "random": 2000, "random_big": 150,
     }
 
 
@@ -247,8 +250,9 @@ def run(ctx):
     jobs = []
     # act-augmented graphs (no VIEW): checked against all invariants AND dumped for complete replay
     dots = {}
-    for k, base in (("g_hs", "C16_hs.cfg"), ("g_stream", "C16_stream.cfg"), ("g_full", "C16_full.cfg")):
-        if b[k] is None:
+    for k, base in (("g_hs", "C16_hs.cfg"), ("g_hs2", "C16_hs.cfg"), ("g_stream", "C16_stream.cfg"),
+                    ("g_full", "C16_full.cfg")):
+        if b.get(k) is None:
             continue
         cfg = _mk(ctx, base, "C16_run_%s.cfg" % k, b[k], replay=True)
         dots[k] = os.path.join(ctx.work, k + ".dot")
@@ -285,6 +289,16 @@ def run(ctx):
     strict_refuted = any(v["name"] == "Authenticated" for v in rs.violations)
     if rs.timed_out or rs.errors:
         raise Undecided("hs_strict run failed")
+    # attack schedules (DESIGN.md 4.3): the counterexample of each weakened spec is the environment's winning
+    # strategy against an implementation with that bug; it is replayed on the real code on every run
+    attacks = []
+    for key in [("weak", sw) for sw in WEAK_SC] + [("strict", "hs")]:
+        for v in res[key].violations[:1]:
+            tr = v["trace"]
+            if len(tr) < 2:
+                continue
+            attacks.append({"rank": to_json(tr[0][1]["rank"]),
+                            "steps": [act_to_step(st["act"]) for _h, st in tr[1:]] + DRAIN, "src": "attack:" + key[1]})
 
     # ---- 2. schedules ----------------------------------------------------------------------------------------
     scheds = []
@@ -299,6 +313,7 @@ def run(ctx):
             x["src"] = k
         scheds += s
     n_graph = len(scheds)
+    scheds += attacks
     # simulation of the larger stream / duplex configs (deep behaviours, seeded)
     sim_total = 0
     for k, base in (("stream", "C16_stream.cfg"), ("duplex", "C16_duplex.cfg")):
@@ -315,7 +330,7 @@ def run(ctx):
             x["src"] = "sim_" + k
         sim_total += len(s)
         scheds += s
-    log("schedules: %d from graphs, %d from simulation" % (n_graph, sim_total))
+    log("schedules: %d from graphs, %d attack schedules, %d from simulation" % (n_graph, len(attacks), sim_total))
     srcs = [x.pop("src") for x in scheds]
 
     cases = [to_json(s["cs"]) for s in core.read_state_dump(os.path.join(ctx.work, "upcases.dump"))]
@@ -389,6 +404,7 @@ def run(ctx):
         "graph_states_replayed": graph_states,
         "schedules_from_graphs": n_graph,
         "schedules_from_simulation": sim_total,
+        "attack_schedules_from_weakened_specs": [a_src for a_src in srcs if a_src.startswith("attack:")],
         "random_runs": b["random"] + b["random_big"],
         "schedule_steps_skipped_by_harness": meta.get("skipped_steps", 0),
         "events_by_kind": kinds,
